@@ -578,7 +578,7 @@ def compile_program(desc, out_kind='vector'):
                 vals.append(r)
         if _peak is not None:
             for v in vals:
-                a_ = np.abs(np.asarray(v, dtype=float))
+                a_ = np.abs(np.asarray(v.data if isinstance(v, UTPM) else v, dtype=float))
                 _peak.append(float(np.max(a_)) if a_.size else 0.0)
         # output: combine the last values so that every step contributes
         last = vals[-1]
@@ -601,9 +601,16 @@ def compile_program(desc, out_kind='vector'):
         """largest |intermediate value| of the program at the plain point x0: the output sums all intermediates, so huge ones
         cancel there and the rounding of that cancellation dominates any comparison of two evaluation orders"""
         tr = []
+        x0 = np.asarray(x0, dtype=float)
+        if x0.ndim == 1:
+            # a plain point: look at the curve x0 + t + t^2 + t^3 as well, derivatives of intermediates (sin of a large argument ...)
+            # grow like powers of the inner derivative and cancel just like large values do
+            c = np.ones((4, 1) + x0.shape); c[0, 0] = x0
+        else:
+            c = x0
         try:
             with np.errstate(all='ignore'):
-                f(np.asarray(x0, dtype=float), tr)
+                f(UTPM(c.copy()), tr)
         except Exception:
             return float('inf')
         m = max(tr) if tr else 0.0
